@@ -259,13 +259,28 @@ def run(mod, argv=None):
     seed = int(os.environ.get("VERIF_SEED", "0") or 0)
     t0 = time.time()
     pid = mod.ID
+    # guards: a check that runs away (a mutated library may loop or allocate without bound) ends as an
+    # infrastructure error (exit 2), never as a verdict
+    import resource
+    import signal
+    limit = int(os.environ.get("VERIF_TIMEOUT", "900" if tier == "quick" else "3300"))
+    mem_limit_kb = int(os.environ.get("VERIF_MAXRSS_GB", "12")) * 2**20
+
+    def _tick(signum, frame):
+        # own resident set only (Lean children map the Mathlib oleans and are left alone)
+        if resource.getrusage(resource.RUSAGE_SELF).ru_maxrss > mem_limit_kb:
+            raise MemoryError(f"check {pid}: resident set above {mem_limit_kb // 2**20} GB")
+        if time.time() - t0 > limit:
+            raise subprocess.TimeoutExpired(cmd=f"check {pid}", timeout=limit)
+    signal.signal(signal.SIGALRM, _tick)
+    signal.setitimer(signal.ITIMER_REAL, 5, 5)
     global CURRENT_ID
     CURRENT_ID = pid
     ctx = Ctx(pid, tier, seed)
     try:
         code = _run(mod, ctx, t0)
-    except subprocess.TimeoutExpired as e:
-        print(f"TIMEOUT {e}", flush=True)
+    except (subprocess.TimeoutExpired, MemoryError) as e:
+        print(f"TIMEOUT/RESOURCE {e!r}", flush=True)
         code = 2
     except Exception:
         traceback.print_exc()
